@@ -7,6 +7,15 @@ if len(sys.argv) > 4 and sys.argv[4] == "deep":
     hint = (" Prefer sites and mechanisms BEYOND the most obvious ones named in the property's anchors: helper functions several calls away, "
             "rarely used branches, caches / memoisation / lazy properties, type-dispatch tables and factory mappings, interactions between two "
             "features, behaviour after save + re-open, and states that only files written by other producers (or earlier edits) contain.")
+if len(sys.argv) > 4 and sys.argv[4] == "pair":
+    hint = (" Prefer, in this order: (1) changes where TWO cooperating sites each look fine alone (a producer and a consumer of an intermediate "
+            "value, a writer and its reader, a cache and its invalidation, a default in one place and a test for it in another); (2) changes in "
+            "error / rollback paths - what is left behind when a call raises midway, or what a documented exception is replaced by; (3) changes "
+            "that only manifest on the N-th call, or only after a specific EARLIER operation on the same or a related object (state carried "
+            "between calls, objects obtained before a modification and used after it); (4) boundary values of numeric ranges, lengths and counts "
+            "(0, 1, the exact maximum, one past a power of the radix); (5) rarely used public entry points and object kinds (less common chart "
+            "types, notes slides, group shapes nested twice, OLE objects, movies, freeform builders, connectors, directory-form packages, "
+            "packages written by other producers). Avoid the most obvious site for the property; previous rounds already covered those.")
 for l in open('/verif/properties.jsonl'):
     p = json.loads(l)
     if p['id'] == pid:
